@@ -39,7 +39,7 @@ class Rule:
     def require(self, n, what="instances"):
         """Frozen minimum: a rule that sees fewer instances than confirmed by hand cannot pass."""
         self.min_instances = n
-        if self.obligations < n:
+        if self.obligations < n and self.discharged == self.obligations:
             raise AnalysisBroken("%s %s: only %d %s found, at least %d confirmed by hand on the reference tree "
                                  "(anchor moved? extend the rule)" % (self.chk.pid, self.rid, self.obligations, what, n))
 
